@@ -25,7 +25,7 @@ import nodeops
 PID = 'C05'
 MODNAME = 'C05'
 PROPS_FILE = 'Props/C05.v'
-COQ_FILES = ['Resolver/C05Obl.v', 'Proofs/RoundTrip.v', 'Props/C05.v']
+COQ_FILES = ['Resolver/C05Obl.v', 'Proofs/RoundTrip.v', 'Proofs/PlainRoundTrip.v', 'Proofs/SweetenKeeps.v', 'Props/C05.v']
 ASSUMPTIONS = [
     'structural part (load (represent v) = v for class-typed values) is tied, not proved: C05_roundtrip is stated _partial',
     'values whose class cannot be told from another registered class by the documented recognition rules are outside the quantifier; '
@@ -193,7 +193,7 @@ def tie(ctx, model_ok=True):
                 t = loadcase.case_term(c2)
             except Exception:      # noqa
                 t = None
-        if t is not None and len(t) < 20000:    # deep recursive documents: the Coq model's recognition is too slow; judged by the oracle only
+        if t is not None and len(t) < 200000:
             terms.append(t)
             info.append((text, repr(tyspec)))
         if len(res['samples']) < 6 and res['evaluations'] % 131 == 1:
